@@ -239,7 +239,9 @@ def run_trace(case: Dict[str, Any]) -> Dict[str, Any]:
         tb = traceback.format_exc()
         frames = traceback.extract_tb(e.__traceback__)
         where = next((f"{Path(f.filename).name}:{f.name}" for f in reversed(frames) if "/nrel/hive/" in f.filename), "harness")
-        in_harness = where == "harness"
+        # an exception raised while a monitor or check was running (they run after the step, outside crank) is the
+        # harness's own, whatever hive function it was calling at the time: never a verdict on the property
+        in_harness = where == "harness" or any("/hivemon/monitors/" in f.filename or "/hivemon/checks/" in f.filename for f in frames)
         ctx.violate(
             primary if not in_harness else "HARNESS",
             f"exception:{type(e).__name__}@{where}",
